@@ -5,6 +5,7 @@ import OtelVerif.Lemmas.C08Mig
 import OtelVerif.Lemmas.C08Txt
 import OtelVerif.Lemmas.C08Api
 import OtelVerif.Lemmas.C08Root
+import OtelVerif.Lemmas.C08JFix
 import OtelVerif.Gen.OtlpSchema
 /-!
 # C08 — OTLP protobuf and JSON codecs are lossless, consistent and total
@@ -678,6 +679,89 @@ this fail statically. -/
 theorem C08_migrate_roots_tie : otlp.roots.all (fun rm => !rootHasDep otlp rm.2 ||
     (migratesPb rm.1 == Gen.OtlpSchema.migratesPbRoots.contains rm.1 &&
      migratesJson rm.1 == Gen.OtlpSchema.migratesJsonRoots.contains rm.1)) = true := by decide +kernel
+
+
+/-! ## JSON: whatever decodes successfully re-encodes to a fixed point (every document tree) -/
+
+set_option maxRecDepth 100000 in
+/-- ties over the regenerated tables: enum values fit `int32`; a reader with a `case` for a proto name has one for the JSON name; no
+reader has a `case` for a deprecated list -/
+theorem C08_json_fix_ties : enumsOk otlp = true ∧ keysSymOk otlp = true ∧ depUncovOk otlp = true := by decide +kernel
+
+/-- the concrete decoders return well-formed data; for the float parser that is the (assumed) `fparse_lt` -/
+theorem C08_txt_out (ffmt : Nat → List Nat) (fparse : List Nat → Option Nat) (hlt : ∀ t n, fparse t = some n → n < 2 ^ 64) :
+    TxtOut (mkTxtF ffmt fparse) where
+  fparse_lt := hlt
+  unb64_bytes := b64dec_out
+  unhex_bytes := hexDec_out
+
+/-- **The JSON readers' results are canonical, for EVERY document tree**: a successful `fromJson` returns a decoder-shaped value
+(`confD`) that is JSON-representable (`jcov`: only fields with a `case` were written; bytes are bytes). -/
+theorem C08_json_decode_canonical (S : Schema) (D : List Val) (T : Txt) (r : List Nat) (hwf : WF S D = true)
+    (hr : reqRankOk S r = true) (hcov : covOk S = true) (hsym : keysSymOk S = true) (he : enumsOk S = true) (hTo : TxtOut T)
+    (m : Nat) (j : Json) (v : Val) (hd : fromJson S T D m j = some v) : CJ S m v := by
+  have hdef : ∀ sub, CJ S sub (D.getD sub .nil) := fun sub =>
+    ⟨defaults_confD S D r (wf_slots hwf) (wf_defaults hwf) hr _ sub (Nat.le_refl _),
+     defaults_jcov S D r hcov (wf_defaults hwf) hr _ sub (Nat.le_refl _)⟩
+  have H : JHyp S T D := ⟨wf_slots hwf, hsym, hTo, he, hdef⟩
+  have hA := (fromJ_CJ S T D H j.size).1 j (Nat.le_refl _) m (D.getD m .nil) v (hdef m)
+  cases j <;> simp only [fromJson] at hd <;> first | exact hA hd | cases hd
+
+/-- **Fixed point (JSON).** For every document tree `j` that the reader of message `m` accepts, with result `v`: the API
+observation `c = canon v` is conforming, marshalling it and reading it back gives `normV c` (NaNs canonical), and `normV c` is
+stationary: marshal → unmarshal returns it unchanged.  Arbitrary JSON, any depth, unknown / duplicate / reordered members, either
+spelling — everything `fromJ` models.  (The lexer, i.e. text → tree, is outside: trusted jsoniter.) -/
+theorem C08_json_fixpoint (S : Schema) (D : List Val) (T : Txt) (r : List Nat) (hwf : WF S D = true) (hj : JWF S = true)
+    (hr : reqRankOk S r = true) (hcov : covOk S = true) (hsym : keysSymOk S = true) (he : enumsOk S = true)
+    (hT : TxtLaws T) (hTo : TxtOut T) (m : Nat) (j : Json) (v : Val) (hd : fromJson S T D m j = some v) :
+    Conforms S m (canon S (.slots (S.slots m)) v) ∧
+    fromJson S T D m (toJson S T m (canon S (.slots (S.slots m)) v))
+      = some (normV S (.slots (S.slots m)) (canon S (.slots (S.slots m)) v)) ∧
+    fromJson S T D m (toJson S T m (normV S (.slots (S.slots m)) (canon S (.slots (S.slots m)) v)))
+      = some (normV S (.slots (S.slots m)) (canon S (.slots (S.slots m)) v)) := by
+  obtain ⟨hc, hjc⟩ := C08_json_decode_canonical S D T r hwf hr hcov hsym he hTo m j v hd
+  have hconf : Conforms S m (canon S (.slots (S.slots m)) v) := canon_conf S _ v hc
+  have hjcan := jcov_canon S _ v m hjc
+  have h1 := C08_json_roundtrip S D T hwf hj hT m _ hconf hjcan
+  have hconf2 : Conforms S m (normV S (.slots (S.slots m)) (canon S (.slots (S.slots m)) v)) := conf_normV S _ _ hconf
+  have hj2 := jcov_normV S _ _ m hconf hjcan
+  have h2 := C08_json_roundtrip S D T hwf hj hT m _ hconf2 hj2
+  rw [normV_idem] at h2
+  exact ⟨hconf, h1, h2⟩
+
+/-- … through the PUBLIC JSON entry points of OTLP (`JSONUnmarshaler.Unmarshal*`, `ExportRequest/Response.UnmarshalJSON`): the
+`otlp.Migrate*` they run is the identity on everything a reader returns (no reader has a `case` for a deprecated list), so the
+root-level decode of a document equals `fromJson`, and the fixed point above is a fixed point of the entry point. -/
+theorem C08_json_fixpoint_root_otlp (T : Txt) (hT : TxtLaws T) (hTo : TxtOut T) (root : String) (m : Nat)
+    (hroot : (root, m) ∈ otlp.roots) (j : Json) (w : Val) (hd : fromJsonRoot otlp T otlpD root m j = some w) :
+    fromJson otlp T otlpD m j = some w ∧
+    fromJsonRoot otlp T otlpD root m (toJson otlp T m (normV otlp (.slots (otlp.slots m)) (canon otlp (.slots (otlp.slots m)) w)))
+      = some (normV otlp (.slots (otlp.slots m)) (canon otlp (.slots (otlp.slots m)) w)) := by
+  obtain ⟨he, hsym, hdu⟩ := C08_json_fix_ties
+  have hr := C08_api_roots
+  simp only [List.all_eq_true] at hr
+  have hrm := hr (root, m) hroot
+  simp only [Bool.or_eq_true, Bool.not_eq_true', Bool.or_eq_false_iff] at hrm
+  have hfirst : migratesJson root = true → ∀ f rest, otlp.slots m = .one f :: rest → f.card = .rep := by
+    intro hmig f rest hs
+    rcases hrm with ⟨_, h2⟩ | h3
+    · rw [h2] at hmig; cases hmig
+    · rw [hs] at h3; simpa using h3
+  have hnoop : ∀ x, CJ otlp m x → (if migratesJson root = true then migrate otlp m x else x) = x := by
+    intro x hx
+    cases hmig : migratesJson root
+    · simp
+    · simp only [if_true]; exact migrate_noop_jcov otlp C08_migrate_shape2 hdu m x (hfirst hmig) hx
+  simp only [fromJsonRoot, Option.map_eq_some_iff] at hd
+  obtain ⟨v, hv, hw⟩ := hd
+  have hcj := C08_json_decode_canonical otlp otlpD T _ C08_schema_wf C08_schema_rank C08_api_cov hsym he hTo m j v hv
+  rw [hnoop v hcj] at hw
+  subst hw
+  refine ⟨hv, ?_⟩
+  obtain ⟨_, _, h3⟩ := C08_json_fixpoint otlp otlpD T _ C08_schema_wf C08_json_wf C08_schema_rank C08_api_cov hsym he hT hTo m j v hv
+  simp only [fromJsonRoot, h3, Option.map_some]
+  have hcj2 := C08_json_decode_canonical otlp otlpD T _ C08_schema_wf C08_schema_rank C08_api_cov hsym he hTo m _ _ h3
+  rw [hnoop _ hcj2]
 
 /-! ## non-vacuity on the OTLP schema itself: an `ApiBuilt` export response -/
 
